@@ -19,12 +19,16 @@ def instances(build, tier, seed):
     for i in c13.scan_instances('quick', fam='safe.scan', extra_defs={'GROW': None}, safety=True):
         if 'SECOND' in i.defs:
             # prefix/backslash first bytes: keep a handful of second bytes (quote, digit, letter, EOF) in the safety run
-            if i.defs['SECOND'] not in (34, 39, 56, 97, 120, -1):
+            if i.defs['SECOND'] not in (97, 120, -1):      # quote/u8 continuations with real 256-byte buffers need > 8 GB: thorough tier
                 continue
         i.defs['N'] = n
         i.unwind = n + 3
         i.name = i.name.replace('.n4', '.n%d' % n)
         i.timeout = 300 if tier == 'quick' else 1800
+        if i.defs['FIRST'] in (34, 39):
+            # literal bodies with the real 256-byte spelling buffer and all pointer checks need > 23 GB: these two run with the
+            # shortened buffer object (any access past the token length is then itself an out-of-bounds report)
+            i.defs.pop('GROW', None)
         L.append(i)
     for i in c14.instances(build, 'quick', seed):
         if i.family in ('utf', 'charconst') and 'riscv' not in i.name and 'aarch64' not in i.name:
